@@ -80,6 +80,8 @@ VALUES = [
     # the documented tolerance is absolute (.001): large magnitudes, where a relative tolerance would be far wider
     '2000000.0', '2000000.0004', '2000000.0015', '123456.789', '123456.7905', '1e9', '1e9 + 0.5', '[2000000.0015]', "{'k': 2000000.0}",
     '{1.0, 1.0004}', '{1.0, 2.0}', '{1.0004, 2.0}', '[{1.0, 2.0}]',
+    # containers whose elements are of different types (typed containers look at every element)
+    "[1, 'a']", "['a', 1]", "[1, 2, 'x', 3]", "{1, 'a'}", "{'k': 1, 'j': 'x'}", "{'k': 1, 2: 3}", "(1, 'a', 2)", "[[1], ['a']]", "[1, None]",
 ]
 # pairs straddling the tolerance, always driven (quick samples the full product above)
 BOUNDARY_PAIRS = [('1.0', '1.0004'), ('1.0', '1.002'), ('1.0004', '0.9996'), ('2000000.0', '2000000.0004'), ('2000000.0', '2000000.0015'),
@@ -185,15 +187,39 @@ def same_key(k, k2):
         return k == k2
 
 
+def all_conform(pairs):
+    """False as soon as one element certainly does not conform (wherever it stands); Open only if none does and one is open"""
+    opened = None
+    for x, t in pairs:
+        try:
+            if not conforms(x, t):
+                return False
+        except Open as e:
+            opened = e
+    if opened is not None:
+        raise opened
+    return True
+
+
 def conforms(v, t):
     """value v conforms to type spec t (python type objects / typing-free generic aliases)"""
     import types
+    if isinstance(t, str):
+        # a type written as text (documented form): it means the type it evaluates to
+        try:
+            t = eval(t, {'__builtins__': __builtins__})
+        except Exception:
+            raise Open('type text that does not evaluate')
     origin = getattr(t, '__origin__', None)
     args = getattr(t, '__args__', ())
     if origin is None:
         if t in (int, float):
-            if isinstance(v, bool) or is_num(v):
-                raise Open('int vs float vs bool in assert_type')
+            if isinstance(v, bool):
+                raise Open('bool where a number is asked for')
+            if is_num(v):
+                if type(v) is t:
+                    return True
+                raise Open('int where float is asked for, or the reverse')
             return False
         if t is bool:
             if is_num(v):
@@ -207,22 +233,23 @@ def conforms(v, t):
     if origin in (list, set, frozenset):
         if not isinstance(v, origin):
             return False
-        return all(conforms(x, args[0]) for x in v) if args else True
+        return all_conform([(x, args[0]) for x in v]) if args else True
     if origin is tuple:
         if not isinstance(v, tuple):
             return False
         if len(args) == 2 and args[1] is Ellipsis:
             return all(conforms(x, args[0]) for x in v)
-        return len(v) == len(args) and all(conforms(x, a) for x, a in zip(v, args))
+        return len(v) == len(args) and all_conform(list(zip(v, args)))
     if origin is dict:
         if not isinstance(v, dict):
             return False
-        return all(conforms(k, args[0]) and conforms(x, args[1]) for k, x in v.items()) if args else True
+        return all_conform([(k, args[0]) for k in v] + [(x, args[1]) for x in v.values()]) if args else True
     raise Open('unknown generic')
 
 
 TYPE_SPECS = ['int', 'str', 'float', 'bool', 'list', 'tuple', 'dict', 'set', 'list[int]', 'list[str]', 'tuple[int, str]', 'tuple[str, int]',
-              'tuple[int, int]', 'dict[str, int]', 'dict[str, float]', 'set[int]', 'list[list[int]]', 'tuple[int, int, int]', 'Point']
+              'tuple[int, int]', 'dict[str, int]', 'dict[str, float]', 'set[int]', 'list[list[int]]', 'tuple[int, int, int]', 'Point',
+              "'int'", "'str'", "'list'", "'list[int]'", "'tuple[int, str]'", "'dict[str, int]'", "'set[int]'", "'list[list[int]]'"]
 
 
 def relation(name, a, b):
